@@ -45,6 +45,15 @@ def handle (s : S) (i : Nat) (j : Json) : S × List Json :=
     let moves := st.beginMoves ++ st.txs.flatMap (·.moves) ++ st.endMoves
     let hasPost (a : String) : Bool := st.obs.debts.any (fun d => d.addr == a)
     let isDebtor (m : St) (a : String) : Bool := hasPost a || m.borrowed.get a != 0 || posAddrs.contains a
+    -- W for a debt that no longer exists after the block: all its interest was paid, so
+    -- interest accrued in the block = Σ repaid − Σ borrowed in the block − principal before − interest owed before
+    let flows (a : String) : Int × Int := moves.foldl (fun (acc : Int × Int) mv =>
+      if mv.kind != "send" || mv.denom != denom then acc
+      else if mv.dst == s.vault && mv.src == a then (acc.1 + mv.amt, acc.2)
+      else if mv.src == s.vault && mv.dst == a then (acc.1, acc.2 + mv.amt) else acc) (0, 0)
+    let goneInterest (m : St) (a : String) : Int :=
+      let (rep, bor) := flows a
+      max 0 (rep - bor - m.borrowed.get a - (m.stacked.get a - m.paid.get a))
     let sc := moves.foldl (fun (sc : Scan) mv =>
       if mv.kind != "send" || mv.denom != denom then sc else
       if mv.dst == s.vault then
@@ -52,13 +61,13 @@ def handle (s : S) (i : Nat) (j : Json) : S × List Json :=
         if isDebtor sc.m a then
           let w := if sc.seen.contains a then 0
                    else if hasPost a then o.stacked.get a - sc.m.stacked.get a
-                   else max 0 (mv.amt - sc.m.borrowed.get a - (sc.m.stacked.get a - sc.m.paid.get a))
+                   else goneInterest s.model a
           applyOp { sc with seen := a :: sc.seen } (Op.repay a w mv.amt)
         else applyOp sc (Op.bond mv.amt)
       else if mv.src == s.vault then
         let a := mv.dst
         if isDebtor sc.m a then
-          let w := if sc.seen.contains a then 0 else if hasPost a then o.stacked.get a - sc.m.stacked.get a else 0
+          let w := if sc.seen.contains a then 0 else if hasPost a then o.stacked.get a - sc.m.stacked.get a else goneInterest s.model a
           applyOp { sc with seen := a :: sc.seen } (Op.borrow a w mv.amt)
         else applyOp sc (Op.unbond mv.amt)
       else sc) { m := s.model }
